@@ -492,7 +492,9 @@ def _b64decode(x: Any, *a: Any, **k: Any) -> Any:
         if x.is_concrete():
             return _base64.b64decode(x.lower_concrete(), *a, **k)
         from .codecs7 import b64decode_items
-        return SymBytes(b64decode_items(x.items), 'bytes')
+        if k.get('altchars') is not None or len(a) > 1 or (a and a[0] is not None):
+            raise Unsupported('base64.b64decode with altchars on symbolic data')
+        return SymBytes(b64decode_items(x.items, bool(k.get('validate', False))), 'bytes')
     return _base64.b64decode(x, *a, **k)
 
 
